@@ -596,7 +596,9 @@ def twin_sweep(chk, MX, n):
             bad = compare_units(ra, rb)
         else:
             tolr = 5e-6 if name in ("annotations",) else 2e-6
-            bad = api.compare(ra, rb, rtol=tolr, atol=2e-7, scale_atol=2e-8)
+            # (annotated values go through the code's unit table, whose constants carry seven digits: a quantity that is small through
+            # cancellation inherits that error relative to the largest load of its kind, not to itself)
+            bad = api.compare(ra, rb, rtol=tolr, atol=2e-7, scale_atol=5e-6 if name in ("annotations",) else 2e-8)
         chk.case(dict(twin=name, units=units, n_wings=len(ac["wings"]), digest=common.hashlib.sha1(json.dumps([A, B], sort_keys=True, default=str).encode()).hexdigest()[:10]), nontrivial=True)
         chk.count("twin=" + name)
         per[name] = per.get(name, 0) + 1
